@@ -25,6 +25,7 @@ import (
 	"strings"
 	"time"
 
+	"verifharness/c14/alt"
 	"verifharness/kit"
 
 	"github.com/golang-jwt/jwt/v5"
@@ -47,6 +48,7 @@ import (
 // hash block, so K and K||00 are the same HMAC key for HS384/HS512 - not a defect of the code under test.
 const nValidSecrets = 13
 const nSecrets = 17
+const zeroSecret = 17
 
 func base(i int) []byte {
 	k := make([]byte, 64)
@@ -113,6 +115,8 @@ func secret(i int) itokensjwt.SecretKeyType {
 		return a[:1]
 	case 16:
 		return []byte{}
+	case 17: // what a caller's wiped 64-byte buffer holds (never drawn as a signer's configured secret)
+		return make([]byte, 64)
 	}
 	panic(fmt.Sprintf("unknown secret %d", i))
 }
@@ -145,7 +149,10 @@ func macKey(alg string, text string, sig []byte) (int, error) {
 		return -1, nil
 	}
 	found := -1
-	for i := 0; i < nSecrets; i++ {
+	for i := 0; i <= zeroSecret; i++ {
+		if i >= nValidSecrets && i != zeroSecret {
+			continue // secrets NewJWTSigner refuses never sign anything (and the empty one is the HMAC key 00..00)
+		}
 		m := hmac.New(hf, secret(i))
 		m.Write([]byte(text))
 		if hmac.Equal(sig, m.Sum(nil)) {
@@ -160,7 +167,7 @@ func macKey(alg string, text string, sig []byte) (int, error) {
 	return found, nil
 }
 
-var payloadTypes = []string{"principal", "blob", "verified", "verification"}
+var payloadTypes = []string{"principal", "blob", "verified", "verification", "altprincipal"}
 
 func newPayload(ptype string) any {
 	switch ptype {
@@ -172,6 +179,8 @@ func newPayload(ptype string) any {
 		return &payloads.VerifiedValuePayload{}
 	case "verification":
 		return &payloads.VerificationPayload{}
+	case "altprincipal": // same bare name, other package
+		return &alt.PrincipalPayload{}
 	}
 	panic("unknown payload type " + ptype)
 }
@@ -257,6 +266,8 @@ func makePayload(ptype string, v int) any {
 			&payloads.VerifiedValuePayload{Entity: q("a", "b")},
 			&payloads.VerifiedValuePayload{VerificationKind: appdef.VerificationKind_EMail, WSID: clusterWSID, ID: 1<<53 + 1, Entity: q("app", "doc"), Field: "n", Value: int64(1<<53 + 1)},
 			&payloads.VerifiedValuePayload{VerificationKind: appdef.VerificationKind_Phone, WSID: math.MaxUint64, ID: 1 << 53, Entity: q("a", "b"), Field: "n", Value: int64(1 << 53)}}[v%5]
+	case "altprincipal":
+		return []any{&alt.PrincipalPayload{Login: "user1"}, &alt.PrincipalPayload{Login: "root", IsAPIToken: true, ProfileWSID: 1 << 53}}[v%2]
 	case "verification":
 		p := &payloads.VerificationPayload{VerifiedValuePayload: payloads.VerifiedValuePayload{VerificationKind: appdef.VerificationKind_EMail, WSID: 1, ID: 2, Entity: q("app", "doc"), Field: "f", Value: "v"}}
 		for i := range p.Hash256 {
@@ -302,6 +313,8 @@ type valSpec struct {
 	App   string `json:"app"`
 	PType string `json:"ptype"`
 	Now   int64  `json:"now_ns"` // ns after kit.Epoch
+	// the caller overwrites the slice it handed to NewJWTSigner with zeros before validating
+	Wipe bool `json:"wipe_secret_after_construction,omitempty"`
 }
 
 // two secrets side by side: does NewJWTSigner take them, do their keyed hashes of the same data agree
@@ -641,7 +654,7 @@ func signKey(mode string) (int, bool) {
 		return 0, false
 	}
 	k, err := strconv.Atoi(mode[1:])
-	return k, err == nil && k >= 0 && k < nSecrets
+	return k, err == nil && k >= 0 && k <= zeroSecret
 }
 
 func buildForged(f *forgeSpec) string {
@@ -883,7 +896,14 @@ func run(cs *caseSpec) (coq string, tags []string, key string, nontrivial bool, 
 	}
 
 	nowAbs := clock.Now().UnixNano()
-	tokens := itokensjwt.ProvideITokens(valKey, clock)
+	callerBuf := append([]byte{}, valKey...)
+	tokens := itokensjwt.ProvideITokens(callerBuf, clock)
+	if cs.Val.Wipe {
+		for i := range callerBuf {
+			callerBuf[i] = 0
+		}
+		tagset["caller-wiped-its-secret-buffer"] = true
+	}
 	appTokens := payloads.ProvideIAppTokensFactory(tokens).New(parseApp(cs.Val.App))
 	o1 := observe(func(p any) (istructs.GenericPayload, error) { return tokens.ValidateToken(tok, p) }, cs.Val.PType)
 	o2 := observe(func(p any) (istructs.GenericPayload, error) { return appTokens.ValidateToken(tok, p) }, cs.Val.PType)
@@ -918,7 +938,7 @@ func run(cs *caseSpec) (coq string, tags []string, key string, nontrivial bool, 
 	}
 	cs.Obs = map[string]any{"itokens": o1.desc(), "iapptokens": o2.desc(), "authenticate": authDesc}
 
-	coq = fmt.Sprintf("TVal (mkTrace %s %s %s %s %s %s %s %s %s)", kit.Bytes(valKey), zc(nowAbs), bs(audOf(cs.Val.PType)), bs(cs.Val.App), v.coq(), origin, o1.coq(), o2.coq(), auth)
+	coq = fmt.Sprintf("TVal (mkTrace %s %s %s %s %s %s %s %s %s %s)", kit.Bytes(valKey), kit.Bytes(callerBuf), zc(nowAbs), bs(audOf(cs.Val.PType)), bs(cs.Val.App), v.coq(), origin, o1.coq(), o2.coq(), auth)
 
 	tagset["tok:"+o1.tag()] = true
 	tagset["apptok:"+o2.tag()] = true
@@ -932,7 +952,11 @@ func run(cs *caseSpec) (coq string, tags []string, key string, nontrivial bool, 
 		rel := keyRelation(signer, cs.Val.Key)
 		tagset[rel] = true
 		if rel != "keys:same" && (o1.code == "ok" || o2.code == "ok") {
-			tagset["accepted-under-"+rel[5:]] = true
+			if cs.Val.Wipe && bytes.Equal(secret(signer), callerBuf) {
+				tagset["C14-ALIAS:signed-under-the-callers-overwritten-buffer-accepted"] = true
+			} else {
+				tagset["accepted-under-"+rel[5:]] = true
+			}
 		}
 		cs.Obs["issuer_secret_len"] = len(secret(signer))
 	}
